@@ -544,8 +544,9 @@ func (p *Parser) parseData() (names []string, sequences map[string]string, nchar
 					if len(lit4) != 1 {
 						err = fmt.Errorf("Expecting a single character after MISSING=', got %q", lit4)
 						stopformat = true
+					} else {
+						missing = []rune(lit4)[0]
 					}
-					missing = []rune(lit4)[0]
 				case GAP:
 					tok3, lit3 := p.scanIgnoreWhitespace()
 					if tok3 != EQUAL {
@@ -560,8 +561,9 @@ func (p *Parser) parseData() (names []string, sequences map[string]string, nchar
 					if len(lit4) != 1 {
 						err = fmt.Errorf("Expecting a single character after GAP=', got %q", lit4)
 						stopformat = true
+					} else {
+						gap = []rune(lit4)[0]
 					}
-					gap = []rune(lit4)[0]
 				default:
 					if err = p.parseUnsupportedKey(lit2); err != nil {
 						stopformat = true
